@@ -1,5 +1,9 @@
-"""C16 - every frame is exactly as tall as the terminal (ansi part; UI frames are added by the ui module)."""
+"""C16 - every frame is exactly as tall as the terminal: the ansi layer, and the frames of the real ui.State."""
+import os
+import shutil
+
 import gen
+import runner
 from common import Case, text_tokens
 from runner import Batch, Spec
 
@@ -10,12 +14,16 @@ def lines(tag, n):
 
 class C16(Spec):
     pid = "C16"
-    groups = ["vansi"]
+    groups = ["vansi", "vui"]
     title = "Every frame is exactly as tall as the terminal"
-    oracle_filter = {"height_ok", "equals_model"}
+    oracle_filter = {"height_ok", "equals_model", "frame_height_ok", "well_formed_result"}
     rule = ("CenterVertically over ALL geometries with prefix/centred/suffix heights 1..7 and terminal heights 1..12 "
             "(4116 cases, exhaustive, every line distinct so the position is checked too), plus random texts with empty lines; "
-            "ReplaceLastLine and SetLength on random texts/widths. non-trivial = prefix or suffix had to be trimmed or padded.")
+            "ReplaceLastLine and SetLength on random texts/widths. UI FRAMES: the real ui.State driven over synthetic threads "
+            "(items of 1..3 lines, previews of 1..2 lines, 0..9 ancestors, 0..12 replies) with random keys, status lines in every "
+            "mode, and resizes to heights 2..50 and widths 5..120 after every few keys: the frame on the screen after each key is "
+            "compared rune for rune with Ui.last_frame (view of the state the frame was computed from) and its line count with the "
+            "terminal height. non-trivial = prefix or suffix had to be trimmed or padded / the frame carried a status line or followed a resize.")
     assumptions = ["heights >= 1 for CenterVertically, >= 2 for frames with a status line (the property's range)"]
 
     def batches(self, rng, tier):
@@ -40,12 +48,39 @@ class C16(Spec):
 
     def nontrivial(self, case, res):
         m = case.meta
+        if case.op == "ui":
+            return any(isinstance(k, list) for k in m["keys"])
         if "ph" in m:
             total = m["h"] - m["ch"]
             return total > 0 and (total // 2 != m["ph"] or total - total // 2 != m["sh"])
         return True
 
     def extra_checks(self, scratch, binary, rng, tier, report):
+        import c07
+        tooldir = os.path.join(scratch.dir, "hookbin")
+        os.makedirs(tooldir, exist_ok=True)
+        shutil.copy(os.path.join(scratch.dir, "verifdump.bin"), os.path.join(tooldir, "vdump"))
+        env = {"PATH": tooldir + ":" + os.environ.get("PATH", ""), "VERIF_DUMP_FILE": os.path.join(scratch.work, "hook.dump"), "VERIF_CASE_TIMEOUT": "60"}
+        feeds = {"main": ["http://dead.invalid/a"], "empty": []}
+        cases = []
+        for _ in range(150 if tier == "quick" else 6000):
+            w = c07.thread_world(rng)
+            keys = []
+            for _ in range(rng.randint(3, 25)):
+                r = rng.random()
+                if r < 0.3:
+                    keys.append((258, rng.choice((5, 8, 20, 60, 120)), rng.choice((2, 2, 3, 4, 5, 7, 10, 24, 50))))
+                elif r < 0.4:
+                    keys += [ord(":")] + [ord(c) for c in rng.choice(["feed nosuch", "bogus", "feed empty", "fee"])] + [rng.choice((13, 27))]
+                elif r < 0.5:
+                    keys += [ord(rng.choice("0123456789")), rng.choice((13, 27, 46))]
+                else:
+                    keys.append(ord(rng.choice("jjkkg hl ")))
+            cases.append(c07.ui_case(w, keys, preload=rng.choice((0, 1, 2, 3)), width=rng.choice((60, 30, 10)), height=rng.choice((2, 3, 10, 24)), feeds=feeds))
+        b = Batch("c16-ui", cases, config="[media]\nhook = [\"vdump\", \"%url\"]\n", env=env, timeout=1200,
+                  correspondence="frames of ui.State == Ui.last_frame, line count == terminal height")
+        b.parallel = False
+        runner.run_batches(self, scratch, binary, [b], report)
         report.extra["exhaustive"] = True
         report.extra["exhaustive_scope"] = "CenterVertically: prefix/centred/suffix heights 1..7 x terminal heights 1..12"
 
